@@ -66,7 +66,7 @@ Proof. exact (sh_relabel_adjacent n j i g). Qed.
 Print Assumptions shapley_relabel_adjacent.
 
 (* full statement (DESIGN 7 C06):
-     Theorem shapley_relabel n pi i g : 2 <= n <= 7 -> pi permutation of the players ->
+     shapley_relabel n pi i g : 2 <= n <= 7 -> pi permutation of the players ->
        sh_player n (pi i) (g o pi^-1) == sh_player n i g.
    Proved: the same for every pi presented as a product of adjacent transpositions
    pi = (j1 j1+1) o (j2 j2+1) o ...  (sh_actp js), with  g o pi^-1 = sh_relabel js g.
